@@ -9,11 +9,12 @@ import stitch_streams as SS
 
 MODULE = "Props.C07"
 THEOREMS = ["C07_plan_covers_requested_columns", "C13_solve_wellFormed", "C13_solveWithFeatures_shape", "C12_columns_union", "C12_doStitch_real_rows",
-            "C11_null_range", "C11_string_result", "C10_microdata_rows"]
-PARTIAL = ["totality of the whole pipeline is not a Lean theorem: proved are the plan/stitch/microdata facts it is assembled from (every column "
-           "introduced exactly once, stitched columns = union, cells decoded per kind, nulls only from the null range); pandas (astype) and "
-           "scikit-learn (scaler, RFECV) are outside the model; sample() is run on every generated table under every strategy and its schema, "
-           "dtypes and cell domains are checked",
+            "C11_null_range", "C11_string_result", "C10_microdata_rows", "C07_buildTable_columns", "C08_materialize_rows"]
+PARTIAL = ["totality (that sample() completes) is not a Lean theorem: the composed model `buildTable` reproduces sample() value for value (S-sampleN) "
+           "and the schema clause is proved of it (C07_buildTable_columns: the assembled table has exactly the plan's columns; with "
+           "C13_solve_wellFormed / C07_plan_covers_requested_columns: every input column once); cells: decoded per kind, nulls only from the "
+           "null range, strings verbatim-or-mask (C11); pandas (astype) and scikit-learn (scaler, RFECV) are outside the model; sample() is run "
+           "on every generated table under every strategy and its schema, dtypes and cell domains are checked",
            "known finding: RecursionError for float columns holding two values closer than ~2^-900 of the column range (C07 recursion-depth-add_row)"]
 ASSUMPTIONS = []
 TRUSTED = ["typed-table generator (1-7 columns, 1..400 rows, all kinds, nulls in float/str/timestamp columns), strategy generator"]
